@@ -12,7 +12,9 @@
 (* Every event carries the inputs handed to the code (S, obs; TH is the    *)
 (* same for all events) and what came back: res ("ok" | "raise" | "hang"), *)
 (* out[j] = adjusted values of parameter j, coef[j] = regression_models[j] *)
-(* .coef_, both in fixed point (unit 10^-6), warn = a warning was issued.  *)
+(* .coef_ (hascoef = FALSE when the call was made with adjustment='linear' *)
+(* and the fitted models are not observable), both in fixed point (unit    *)
+(* 10^-6), warn = a warning was issued.                                    *)
 (*                                                                         *)
 (* TLC recomputes masks, normal equations, slopes and adjusted values      *)
 (* from the logged inputs with the operators of LinAdjustOps (exact        *)
@@ -85,7 +87,7 @@ JudgeP(e) ==
   ELSE IF \E j \in 1..NP : \E q \in 1..Len(e.out[j]) :
             IsObservedRow(e.S, e.obs, info[j].rows[q]) /\ e.out[j][q] # T.TH[j][info[j].rows[q]] * Unit
        THEN "P:fixed-point-row"
-  ELSE IF \E j \in 1..NP : info[j].dec /\ ~CoefOkJ(e, info[j], j) THEN "P:normal-equations"
+  ELSE IF e.hascoef /\ \E j \in 1..NP : info[j].dec /\ ~CoefOkJ(e, info[j], j) THEN "P:normal-equations"
   ELSE IF \E j \in 1..NP : info[j].dec /\ ~OutOkJ(e, info[j], j) THEN "P:adjusted"
   ELSE IF e.ev = "affine" /\ Base.res = "ok" /\ Len(Base.out) = NP /\
           \E j \in 1..NP : \/ Len(e.out[j]) # Len(Base.out[j])
@@ -108,7 +110,7 @@ JudgeM(e) ==
        (IF \E j \in 1..NP : info[j].F = {} THEN "" ELSE "M:raises-only-without-finite-rows")
   ELSE IF \E j \in 1..NP : info[j].F = {} THEN "M:raises-only-without-finite-rows"
   ELSE IF Len(e.out) # NP \/ \E j \in 1..NP : Len(e.out[j]) # Cardinality(info[j].F) THEN ""
-  ELSE IF Safe(e) /\ \E j \in 1..NP : info[j].det = 0 /\ ~(CoefOkJ(e, info[j], j) /\ OutOkJ(e, info[j], j))
+  ELSE IF Safe(e) /\ \E j \in 1..NP : info[j].det = 0 /\ ~((e.hascoef => CoefOkJ(e, info[j], j)) /\ OutOkJ(e, info[j], j))
        THEN "M:minimum-norm-slope-when-rank-deficient"
   ELSE IF e.warn # (\E i \in 1..N : (\E a \in 1..K : ~IsFin(e.S[i][a])) \/ (\E j \in 1..NP : ~IsFin(T.TH[j][i])))
        THEN "M:warns-iff-non-finite"
